@@ -254,6 +254,39 @@ impl<const N: usize> World<N> {
     /// Calls into the driver, with the store tracer armed if this is the checked step.
     fn traced<R>(&mut self, check: bool, f: impl FnOnce(&mut VirtQueue<LabHal, N>) -> R) -> Result<R, String> {
         self.accesses.clear();
+        if check && self.cfg.indirect {
+            // C02: the indirect table of an entry that is available and not yet completed is
+            // device-visible queue memory; the driver may not hand it back to the heap during
+            // any call (the device may read it at any instant until it has used the entry).
+            let tables: Vec<(u16, usize, usize)> = hal::with(|h| {
+                self.outs
+                    .iter()
+                    .filter(|o| o.completed.is_none())
+                    .filter_map(|o| o.chain.indirect.and_then(|(taddr, _)| h.shares.iter().rev().find(|s| s.live && s.paddr == taddr).map(|s| (o.token, s.vaddr, s.len))))
+                    .collect()
+            });
+            if !tables.is_empty() {
+                let r = {
+                    crate::alloc_watch::log_frees();
+                    let r = self.traced_inner(check, f);
+                    let (frees, overflow) = crate::alloc_watch::take_frees();
+                    if overflow {
+                        viol("C02", "free-log-overflow", "more heap frees in one queue call than the log holds".into());
+                    }
+                    for (tok, va, len) in &tables {
+                        if let Some((fa, fs)) = frees.iter().find(|(fa, fs)| *fa < va + len && *va < fa + fs) {
+                            viol("C02", "indirect-table-freed-while-available", format!("the indirect table of entry {} ({:#x}+{}), which is available and not yet completed, was returned to the heap ({:#x}+{}) during this call: the device may still read it", tok, va, len, fa, fs));
+                        }
+                    }
+                    r
+                };
+                return r;
+            }
+        }
+        self.traced_inner(check, f)
+    }
+
+    fn traced_inner<R>(&mut self, check: bool, f: impl FnOnce(&mut VirtQueue<LabHal, N>) -> R) -> Result<R, String> {
         let q = self.q.as_mut().unwrap();
         if check {
             if let Some(mut t) = self.tracer.take() {
